@@ -12,12 +12,15 @@ func init() {
 			"(C16-pred) on every exit of the predicate its answer is equivalent, under the exit's path condition, to `focus == \"\" | name == focus | namespace/name == focus` (canonical atoms by what is compared with the option; any other test on the option breaks the equivalence), and every non-exclusion exit of the pair filter answers pred(src) | pred(dst) - whatever the shape (one expression, guard clauses, a switch); " +
 			"(C16-rows) every row construction is dominated by includePairOfWorkloads on the same pair (rule C05-a); " +
 			"(C16-pure) the focused run evaluates fewer pairs than the full run, so a pair's answer must not depend on which pairs were evaluated before: no function on a query path writes long-lived state outside the reviewed table (the rule of C01-pure); " +
+			"(C16-ia-empty) IngressAnalyzer.IsEmpty() is equivalent to `no services | (no routes & no ingresses)` (formula over its exits): it decides whether a focus on the ingress-controller names something that exists; " +
 			"(C16-absent) a focus that matches nothing appends a warning and returns a nil error. " +
 			"NOT decided: equality of focused and filtered-unfocused output on inputs (the lazily filled exposure data make this a runtime question under --exposure)."
 		rules.FocusFilter(p, r, "C16")
 		rules.GuardedRowConstruction(p, r, "C16-rows")
 		rules.CLIExitChain(p, r, "C16-exit")
 		rules.QueryPathWrites(p, r, "C16-pure")
+		rules.IngressAnalyzerEmptiness(p, r, "C16-ia-empty")
+		rules.CLIPrintIdentity(p, r, "C16-print")
 	})
 	register("C17", "connectivity is per workload, independent of replicas and controller kind", func(p *core.Program, r *core.Report) {
 		r.Explanation = "Structural necessary conditions, decided for all inputs and re-expressions at once: " +
